@@ -178,3 +178,55 @@ mut("c07-prefix-decode-unguarded", "C07", ISO,
     "        except UnicodeDecodeError as ex:\n            raise Iso8583DataError(f'Unable to decode DE{bit} field length',",
     "        except UnicodeEncodeError as ex:\n            raise Iso8583DataError(f'Unable to decode DE{bit} field length',",
     note="UnicodeDecodeError from a length prefix escapes (ascii codec only)")
+
+# ---- C08 ------------------------------------------------------------------------------------
+mut("c08-revert-negative-fix", "C08", ISO,
+    "        if field_length < 0:\n            raise Iso8583DataError(f'Negative field length DE{bit}', binary_context_data=message_data)\n",
+    "",
+    note="reverts fix d2adaea: negative prefix accepted, two elements share bytes (needs a splice whose tail still tiles)")
+mut("c08-zero-length-rejected", "C08", ISO,
+    "        if field_length < 0:\n            raise Iso8583DataError(f'Negative field length DE{bit}'",
+    "        if field_length <= 0:\n            raise Iso8583DataError(f'Negative field length DE{bit}'",
+    note="over-strict decoder: zero-length variable fields refused")
+mut("c08-final-pointer-lt", "C08", ISO,
+    "    if message_pointer != len(message_data):",
+    "    if message_pointer < len(message_data):",
+    note="overrun accepted: last elements read short")
+mut("c08-pds-walker-step", "C08", ISO,
+    "        field_pointer += 7+pds_field_length",
+    "        field_pointer += 7+pds_field_length + (1 if pds_field_length == 0 else 0)",
+    note="PDS walker mis-steps over an empty value (needs a zero-length PDS sub-element followed by another)")
+mut("c08-bad-numeral-as-zero", "C08", ISO,
+    "        except ValueError as ex:\n            raise Iso8583DataError(f'Invalid field length DE{bit}',\n                                   binary_context_data=message_data, original_exception=ex)",
+    "        except ValueError as ex:\n            field_length = 0",
+    note="garbage prefix read as zero: a message without exact reading is accepted when the rest happens to tile")
+mut("c08-neg-strict-numerals", "C08", ISO,
+    "        try:\n            field_length = int(field_length_string)",
+    "        try:\n            if not field_length_string.isdigit():\n                raise ValueError('length prefix must be digits')\n            field_length = int(field_length_string)",
+    expect="clean", note="negative control: refusing ' 2', '+2', '1_' etc. is allowed (don't-care numerals)")
+mut("c08-fixed-field-rstrip", "C08", ISO,
+    "    return_values[\"DE\" + str(bit)] = field_data\n",
+    "    return_values[\"DE\" + str(bit)] = field_data.rstrip() if isinstance(field_data, str) and bit_config['field_type'] == 'FIXED' and len(field_data) > 30 else field_data\n",
+    note="long fixed text fields come back stripped: value is not the content of its own bytes (needs a fixed field > 30 wide ending in a space: generated configurations)")
+
+# ---- C10 ------------------------------------------------------------------------------------
+mut("c10-revert-record-number-fix", "C10", MC,
+    "                record_number=self.record_number - 1,  # counter already points at the next record",
+    "                record_number=self.record_number,",
+    note="reverts fix ea06b2f: message-level errors report k+1")
+mut("c10-context-without-prefix", "C10", MC,
+    "        self.last_record = record_length_raw + record  # save last record read",
+    "        self.last_record = record  # save last record read",
+    note="context data of message-level errors lacks the length prefix")
+mut("c10-framing-errors-from-zero", "C10", MC,
+    "                                  record_number=self.record_number,\n                                  binary_context_data=record_length_raw + record)",
+    "                                  record_number=self.record_number - 1,\n                                  binary_context_data=record_length_raw + record)",
+    note="short-record errors numbered one too low (record 1 -> 0 -> None)")
+mut("c10-oversize-context-stale", "C10", MC,
+    "                                  record_number=self.record_number,\n                                  binary_context_data=record_length_raw)",
+    "                                  record_number=self.record_number,\n                                  binary_context_data=self.last_record or record_length_raw)",
+    note="oversize-length error carries the PREVIOUS record's bytes (only visible for k > 1)")
+mut("c10-last-record-class-level", "C10", MC,
+    "        self.last_record = record_length_raw + record  # save last record read",
+    "        VbsReader.last_record = record_length_raw + record if self.record_number > 1 or VbsReader.last_record is None else VbsReader.last_record  # save last record read",
+    note="first record's bytes kept on the class and not refreshed: stale context for an error in record 1 of a later file")
